@@ -118,6 +118,12 @@ def main(tier, seed, replay=None):
                 e = e.make_like(e.op, tuple((a.annotate(c18ann.Tag(rng.randrange(50), False, True)) if (isinstance(a, claripy.ast.Base) and a is sub[0]) else a)
                                             for a in e.args))
             exprs.append(e)
+        # targeted: the same annotation twice, and several annotations whose order a frozenset would permute
+        for k in range(6):
+            e = g.any(2)
+            t = c18ann.Tag(40 + k, False, rng.random() < 0.5)
+            exprs.append(e.annotate(t, c18ann.Tag(40 + k, t._e, t._r)))
+            exprs.append(g.any(2).annotate(*[c18ann.Tag(100 + 7 * k + j, False, False) for j in range(5)]))
         for e in exprs:
             r = pickle.loads(pickle.dumps(e))
             stats["expr_inprocess"] += 1
